@@ -237,8 +237,16 @@ SolveSkel(a0, b0) ==
       blocks == [i \in 1..Len(used) |-> SkelBlk(<<used[i].s[2]>>, <<used[i].shape[2]>>)]
       ix == [dual |-> ~a.ix[2].dual, cm |-> a.ix[2].cm, sub |-> a.ix[2].sub]
       odd == SelectSeq(blocks, LAMBDA blk : Parity(a.sym, blk.s[1]) = 1)
-  IN [b EXCEPT !.ix = <<ix>>, !.charge = Combine(a.sym, b.charge, Neg(a.sym, a.charge)), !.blocks = blocks,
-               !.phases = IF IsFermi(a) /\ ix.dual THEN [i \in 1..Len(odd) |-> [s |-> odd[i].s, p |-> -1]] ELSE <<>>]
+      flipped == [b EXCEPT !.ix = <<ix>>, !.charge = Combine(a.sym, b.charge, Neg(a.sym, a.charge)), !.blocks = blocks,
+                    !.phases = IF IsFermi(a) /\ ix.dual THEN [i \in 1..Len(odd) |-> [s |-> odd[i].s, p |-> -1]] ELSE <<>>]
+      \* odd-parity matrix (solve_fermionic after the repair of F15): the solution carries the conjugate labels of `a`
+      \* followed by those of `b` (resolved), and the global sign with which `a @ x` resolves back to `b`
+      pa == ParityOfArray(a)
+      adag == [i \in 1..Len(a.oddpos) |-> [label |-> a.oddpos[Len(a.oddpos) + 1 - i].label, dual |-> ~a.oddpos[Len(a.oddpos) + 1 - i].dual]]
+      W == ResolveLoop(adag \o b.oddpos, 1, 1).L
+      p2 == ResolveLoop(a.oddpos \o W, 1, IF pa = 1 /\ Len(W) % 2 = 1 THEN -1 ELSE 1).phase
+  IN IF ~IsFermi(a) \/ a.oddpos = <<>> THEN flipped
+     ELSE [(IF p2 = -1 THEN IPhaseGlobal(flipped) ELSE flipped) EXCEPT !.oddpos = W]
 \* a recorded array has the skeleton m
 SkelEq(m, r) ==
   /\ r.ix = m.ix /\ r.charge = m.charge /\ r.sym = m.sym /\ r.kind = m.kind
